@@ -1,7 +1,7 @@
 (* C02 — linked instances converge on the shared device tree (partial: the point exchange is
    proved; the recursion of the catch-up is an executable model validated against two real
    linked instances on every run).  Statements only; proofs in Sync/Proofs.v. *)
-From Verif Require Import Base.Bytes Store.GraphCount Store.GraphWalk Store.Model Store.Check Store.ProofsRows Store.ProofsHash Store.ProofsTop Store.Concurrent Sync.Model Sync.Proofs Sync.ProofsEdge Sync.Frame Sync.Converge Sync.ConvergeExample Sync.Create.
+From Verif Require Import Base.Bytes Store.GraphCount Store.GraphWalk Store.Model Store.Check Store.ProofsRows Store.ProofsHash Store.ProofsTop Store.Concurrent Sync.Model Sync.Proofs Sync.ProofsEdge Sync.Frame Sync.Converge Sync.ConvergeExample Sync.Create Sync.Subtree.
 
 (* the two comparison loops of a catch-up pass: for any two row lists (one row per identity,
    normalised keys, a tie in time meaning the same point) both sides end up, for every identity,
@@ -172,6 +172,59 @@ Example C02_node_creation_example :
   edge_rows (send_node crU cr_ns cr_e id_dev sync_id 9%Z) id_dev id_c <> [] /\
   node_rows (s_nodes (send_node crU cr_ns cr_e id_dev sync_id 9%Z)) id_c <> [].
 Proof. vm_compute. repeat split; discriminate. Qed.
+
+(* a whole subtree that only the downstream holds (created during an outage): sendNodesRemote is a sequence of
+   SendNode calls, parent before children (send_nodes_remote_is_fold), and when every node it sends is new to the
+   upstream at the moment it is sent ([pre]: no link the upstream held, or an earlier call made, mentions it; its
+   points are numbers with storable times; it is not the root, not its own parent) the upstream ends with a copy of
+   every node and edge that was sent - node points merged into whatever rows it had for that id, a new edge with the
+   sender's edge points - under the right parents, and nothing else changes.  Any depth, any store.
+   (sendNodesLocal, the same recursion in the other direction, stays with the correspondence check.) *)
+Theorem C02_subtree_creation :
+  forall f D U uroot e now,
+    good U -> pre D uroot now (links U) (s_root U) (sent_edges f D e) ->
+    let L := sent_edges f D e in
+    let U' := send_nodes_remote f D U uroot e now in
+    good U' /\ links U' = links U ++ map (pair_of uroot) L /\ s_root U' = s_root U /\
+    (forall c, In c L ->
+       node_rows (s_nodes U') (e_down c) = batch_rows false (node_rows (s_nodes U) (e_down c)) (npts_of D c) /\
+       edge_rows U' (par_of uroot c) (e_down c) = batch_rows true [] (sent_edge_points c sync_id now)) /\
+    (forall y, ~ In y (map e_down L) -> node_rows (s_nodes U') y = node_rows (s_nodes U) y) /\
+    (forall u d, ~ In (u, d) (map (pair_of uroot) L) -> edge_rows U' u d = edge_rows U u d).
+Proof. exact send_nodes_remote_copies. Qed.
+Print Assumptions C02_subtree_creation.
+
+(* non-vacuity: the downstream example store holds d -> c -> g; the upstream store crU holds d only.  Sending c
+   (depth 2) is two calls, c then g; the hypothesis holds (decided by preb); afterwards the upstream has both edges *)
+Lemma good_crU : good crU.
+Proof.
+  assert (O : Forall op_ok [mk id_ur str_root 1; mk id_dev id_ur 1]) by (repeat constructor; discriminate).
+  destruct (reachable_ok _ O) as (W & I & E). split; [split; [exact W|split; [exact I|exact E]]|].
+  apply run_nodes_ok. exact nodes_ok_st0.
+Qed.
+Definition cr_top : edge := hd cr_e (get_nodes cD id_dev id_c true).
+Example C02_subtree_creation_example :
+  good crU /\
+  map e_down (sent_edges 2 cD cr_top) = [id_c; id_g] /\
+  pre cD id_ur 9%Z (links crU) (s_root crU) (sent_edges 2 cD cr_top) /\
+  edge_rows (send_nodes_remote 2 cD crU id_ur cr_top 9%Z) id_dev id_c <> [] /\
+  edge_rows (send_nodes_remote 2 cD crU id_ur cr_top 9%Z) id_c id_g <> [] /\
+  edge_rows crU id_c id_g = [].
+Proof.
+  split; [exact good_crU|]. split; [vm_compute; reflexivity|]. split; [apply preb_pre; vm_compute; reflexivity|].
+  vm_compute. repeat split; discriminate.
+Qed.
+
+(* the other direction: sendNodesLocal lists the children through the local store after the node has been created
+   there (client/sync.go: up.nc), so for a node that is new to the local store one call copies exactly that node
+   (C02_node_creation says what the copy is); its children follow in later passes *)
+Theorem C02_local_creation_is_one_node :
+  forall f D src e now,
+    good D -> ok1 (mkStore src [] [] 0) [] now (links D) (s_root D) e -> e_up e <> str_root ->
+    e_down e <> str_root -> e_down e <> str_all ->
+    send_nodes_local f D src e now = send_node D src e (e_up e) sync_id now.
+Proof. exact send_nodes_local_one. Qed.
+Print Assumptions C02_local_creation_is_one_node.
 
 (* What the hash short-cut of syncNode cannot see (recorded finding equal-hash-different-content).
    A catch-up pass on a node whose compared hashes are equal returns both stores unchanged whatever lies
